@@ -98,6 +98,20 @@ def main() -> int:
         except BaseException as e:
             if isinstance(e, (KeyboardInterrupt, SystemExit)):
                 raise
+            if type(e).__name__ == "InvalidHugr":
+                rec = {"status": "violated", "fp": "invalid-hugr",
+                       "mech": f"{job['prop']}:compiled-program-is-invalid-hugr",
+                       "witness": {"validator": str(e)[:1500], "tb": traceback.format_exc()[-1500:],
+                                   "note": "re-run the check with the same seed; case index in the replay file"}}
+                rec["t"] = round(time.time() - t0, 3)
+                emit({"ev": "rec", "idx": idx, "rec": rec})
+                _disarm()
+                if ctx is not None:
+                    try:
+                        ctx.unload_all()
+                    except Exception:
+                        pass
+                continue
             rec = {"status": "harness_error", "fp": None,
                    "detail": f"{type(e).__name__}: {e}", "tb": traceback.format_exc()[-3000:]}
         finally:
